@@ -524,7 +524,12 @@ def repr_values(condition: Callable[..., bool], lambda_inspection: Optional[Cond
     reprs = None  # type: Optional[MutableMapping[str, Any]]
 
     if lambda_inspection is not None:
-        variable_lookup = collect_variable_lookup(condition=condition, resolved_kwargs=selected_kwargs)
+        # Only the parameters of the condition are visible in its body; the remaining arguments of the call must not
+        # shadow the variables which the condition picks from its closure or from the globals.
+        condition_parameters = inspect.signature(condition).parameters
+        variable_lookup = collect_variable_lookup(
+            condition=condition,
+            resolved_kwargs={key: value for key, value in selected_kwargs.items() if key in condition_parameters})
 
         recompute_visitor = icontract._recompute.Visitor(variable_lookup=variable_lookup)
 
